@@ -766,7 +766,7 @@ class ResumeFromFile(Contract):
             else:
                 p.prove(z3.BoolVal(isinstance(ro, PyDict) and len(ro.d) == 0), f"{q}:C11:without resume_kwargs the continued run gets no overrides {tag}")
             rb = r.f.get("_resume_from_default")
-            p.prove(z3.BoolVal(isinstance(rb, Sym) and rb.e.eq(z3.Const("stored_checkpoint_bytes", Misc))), f"{q}:C11:the continued run resumes from the checkpoint stored in the file {tag}")
+            p.prove(z3.BoolVal(isinstance(rb, Sym) and rb.e.eq(z3.Const("stored_checkpoint_bytes", Misc))), f"{q}:C11:C14:the continued run resumes from the checkpoint that was read together with the flow (a snapshot, not the file name: the file may be rewritten before sampling) {tag}")
         primed = "_resume_from_default" in r.f and not isinstance(r.f["_resume_from_default"], NoneV)
         p.prove(z3.BoolVal(primed == bool(has)), f"{q}:C11:C12:the stored checkpoint is primed for the next sampling call exactly when the file holds one {tag}")
 
@@ -913,14 +913,20 @@ class BuildAspireFromFile(BuildAspireFromFileModel):
            "stored blob, n_samples the size of the stored population, the sampler type and sampler configuration the stored ones; a missing checkpoint gives None")
 
     def shapes(self):
-        return [{"ckpt": c, "bounds": b, "flow_kwargs": fk, "xp": x, "dtype": d} for c in (0, 1) for b in (0, 1) for fk in (0, 1) for x in (0, 1) for d in (0, 1)
-                if (b == fk == x == d) or c]
+        out = [{"ckpt": c, "bounds": b, "flow_kwargs": fk, "xp": x, "dtype": d} for c in (0, 1) for b in (0, 1) for fk in (0, 1) for x in (0, 1) for d in (0, 1)
+               if (b == fk == x == d) or c]
+        # a file that holds configuration and a checkpoint but no flow (an explicit checkpoint path used inside a context that had already saved the flow elsewhere)
+        out.append({"ckpt": 1, "bounds": 0, "flow_kwargs": 0, "xp": 0, "dtype": 0, "noflow": 1})
+        return out
 
     def must_return(self, shape):
-        return True            # every file of the shapes below holds configuration and flow: the reader returns
+        return not shape.get("noflow")            # every other file holds configuration and flow: the reader returns
 
     def post_raise(self, I, pre, sig):
         sh = pre.ghost["shape"]
+        if sh.get("noflow") and sig.exc == "ValueError":
+            return                                # refused, as it must be
+
         I.path.prove(z3.BoolVal(False), f"{self.qual}:C13:C12:a file that holds configuration and flow is read without an exception [{sig.exc}; checkpoint stored: {bool(sh['ckpt'])}]", assume_after=False)
 
     def setup(self, I, shape):
@@ -944,9 +950,12 @@ class BuildAspireFromFile(BuildAspireFromFileModel):
             I.call_repo(save, None, [h5, Str("aspire_config"), d], {}, None, force_inline=True)
         finally:
             I.depth -= 1
-        fg = mk_group("flow")
-        fg.f["ver"] = Sym(z3.Const("stored_flow_ver", FLOWVER), "flowver")
-        root.f["members"].d["flow"] = fg
+        if shape.get("noflow"):
+            I.path.ghost["record_transform_construction"] = True       # should the reader go on to build a flow of its own, that is followed (and refuted below)
+        if not shape.get("noflow"):
+            fg = mk_group("flow")
+            fg.f["ver"] = Sym(z3.Const("stored_flow_ver", FLOWVER), "flowver")
+            root.f["members"].d["flow"] = fg
         g = {"cfg": cfg, "shape": shape, "root": root}
         if shape["ckpt"]:
             pop = Obj("SMCSamples", {"x": base_arr("stored_x", "row", z3.Int("stored_population_size")), "xp": Sym(z3.Const("stored_xp", Misc), "ns")})
@@ -969,6 +978,9 @@ class BuildAspireFromFile(BuildAspireFromFileModel):
         q = self.qual
         sh, cfg = g["shape"], g["cfg"]
         tag = f"[{'checkpoint stored' if sh['ckpt'] else 'no checkpoint'}, bounds={sh['bounds']}, flow options={sh['flow_kwargs']}, namespace={sh['xp']}, dtype={sh['dtype']}]"
+        if sh.get("noflow"):
+            p.prove(z3.BoolVal(False), f"{q}:C14:C12:a file without the stored flow is refused (ValueError): the stored checkpoint is never handed on to be continued under another proposal")
+            return
         ok = isinstance(r, Tup) and len(r.items) == 6 and isinstance(r.items[0], Obj) and r.items[0].cls == "Aspire"
         p.prove(z3.BoolVal(ok), f"{q}:C13:returns (instance, bytes, state, sampler config, sampler type, size) {tag}")
         if not ok:
@@ -976,7 +988,7 @@ class BuildAspireFromFile(BuildAspireFromFileModel):
         a, blob, state, scfg, stype, nsmp = r.items
         from contracts.serialization import struct_equal
         for k in ("dims", "parameters", "periodic_parameters", "prior_bounds", "bounded_to_unbounded", "bounded_transform", "flow_matching", "device", "flow_backend", "eps", "dtype"):
-            p.prove(struct_equal(I, cfg[k], a.f.get(k, NONE)), f"{q}:C13:the rebuilt instance has the saved setting `{k}` {tag}")
+            p.prove(struct_equal(I, cfg[k], a.f.get(k, NONE)), f"{q}:C13:C11:the rebuilt instance has the saved setting `{k}` (same value, same type: a list stays a list) {tag}")
         fk = a.f.get("flow_kwargs")
         p.prove(struct_equal(I, cfg["flow_kwargs"], fk) if isinstance(fk, PyDict) else z3.BoolVal(False), f"{q}:C13:the saved flow options are handed back to the constructor as keywords (not nested) {tag}")
         xp = a.f.get("xp", NONE)
